@@ -8,7 +8,7 @@ export VERIF_DIR="$(pwd)"
 ID="${1:?property id}"; TIER="${2:-quick}"
 export VERIF_TIER="$TIER"
 mkdir -p build evidence replays
-rm -f "replays/${ID}_"*.json
+rm -f "replays/${ID}_"*.json "replays/${ID}_"*.log
 cp -f /repo/go.sum harness/.repo.go.sum 2>/dev/null || true
 build() { # build <out> <tags> [extra go build args...]
   local out="$1" tags="$2"; shift 2
@@ -19,5 +19,11 @@ LOG="build/build-$ID.log"
 if [ -f "scripts/pre-$ID.sh" ]; then . "scripts/pre-$ID.sh" >"build/pre-$ID.log" 2>&1 || { echo "PRE-STEP-FAILED property=$ID (see build/pre-$ID.log)"; exit 3; }; fi
 if ! build vcheck verif >"$LOG" 2>&1; then
   echo "BUILD-FAILED property=$ID (see $LOG)"; cat "$LOG"; exit 3
+fi
+if [ -n "${VARIANT_FAILED:-}" ]; then
+  cp "build/pre-$ID.log" "replays/${ID}_variant-build.log" 2>/dev/null
+  echo "VIOLATION property=$ID replay=$(pwd)/replays/${ID}_variant-build.log"
+  echo "  key=$ID/variant-build: $VARIANT_FAILED"
+  exit 1
 fi
 exec ./build/vcheck "$ID" "$TIER"
